@@ -26,7 +26,7 @@ def gen_C11(w, tier):
     sc = w.scenario("C11/randrange-2byte", ("exhaustive nb=2",))
     rec = []
     for maxval in widths2:
-        if maxval > 65536:
+        if maxval > 65535:        # 2^16 and above need three bytes per draw
             continue
         start = r.choice([0, 7, -300])
         idx = []
